@@ -73,6 +73,10 @@ var c26statusPats = []c26pat{
 
 var c26classOf = map[string]string{}
 
+// c26direct is the member filter called directly; set by c26direct.go (left out when the accessor
+// does not compile against a changed tree).
+var c26direct func(members []serf.Member, tags map[string]string, status, name string) ([]serf.Member, error)
+
 func init() {
 	for _, l := range [][]c26pat{c26namePats, c26statusPats} {
 		for _, p := range l {
@@ -282,7 +286,10 @@ func c26probe(fd c26field, m c26member) (accepted bool) {
 	default:
 		f.name = fd.pat
 	}
-	got, err := agent.VFilterMembers(c26serfMembers([]c26member{m}), f.tags, f.status, f.name)
+	if c26direct == nil {
+		return false
+	}
+	got, err := c26direct(c26serfMembers([]c26member{m}), f.tags, f.status, f.name)
 	v := err == nil && len(got) == 1
 	c26probeCache[k] = v
 	return v
@@ -475,6 +482,12 @@ func c26run(ctx *vc.Ctx) {
 	if ctx.Replay != nil {
 		return
 	}
+	if c26direct == nil {
+		ctx.Note("the direct accessor of filterMembers does not compile against this tree (its signature changed); only the RPC-path scenarios were run")
+		idx := 0
+		c26rpc(ctx, &idx)
+		return
+	}
 	if !c26selfcheck(ctx) {
 		return
 	}
@@ -511,7 +524,7 @@ func c26run(ctx *vc.Ctx) {
 						continue
 					}
 					in := append([]serf.Member{}, serfLists[li]...)
-					got, err := agent.VFilterMembers(in, f.tags, f.status, f.name)
+					got, err := c26direct(in, f.tags, f.status, f.name)
 					out, nt := c26judge(ctx, scn.Name, f, l, err, got != nil, c26fromSerf(got, l))
 					scn.Case(out, nt)
 				}
@@ -613,6 +626,47 @@ func c26rpc(ctx *vc.Ctx, idx *int) {
 				}
 			}
 		}
+		// several requests on ONE connection: every ordered pair (thorough: triple) of filters whose
+		// tag sets are subsets / supersets / variations of each other; each reply is judged on its own
+		// request, whatever the connection was asked before
+		sc2 := ctx.Scn("rpc/same-connection", "cases")
+		sess := []map[string]string{nil, {"t": "a"}, {"t": "a", "u": ""}, {"t": "a|b", "u": ""}, {"u": ""}, {"t": ".*", "u": "a"}, {"t": "(a"}, {"t": "ab"}}
+		depth := 2
+		if ctx.Thorough() {
+			depth = 3
+		}
+		var rec func(hist []int)
+		rec = func(hist []int) {
+			if len(hist) == depth {
+				*idx++
+				if !ctx.Mine(*idx) {
+					return
+				}
+				conn := agent.VNewMembersConn(n.S)
+				for i, k := range hist {
+					f := c26filter{"", "", sess[k]}
+					r := conn.Request("members-filtered", uint64(100+i), f.tags, f.status, f.name)
+					var gotErr error
+					switch {
+					case r.HandlerErr != nil:
+						gotErr = r.HandlerErr
+					case !r.HasHeader:
+						gotErr = fmt.Errorf("no reply")
+					case r.HeaderErr != "":
+						gotErr = fmt.Errorf("%s", r.HeaderErr)
+					}
+					out, nt := c26judge(ctx, sc2.Name, f, ms, gotErr, r.HasBody, conv(r.Members))
+					if i == len(hist)-1 {
+						sc2.Case(out, nt)
+					}
+				}
+				return
+			}
+			for k := range sess {
+				rec(append(append([]int{}, hist...), k))
+			}
+		}
+		rec(nil)
 	})
 	if harnessErr != "" {
 		ctx.Fail("%s", harnessErr)
